@@ -60,6 +60,10 @@ POOL3_LABELS = ["zero", "neg1", "p70", "half", "nan", "sabc", "l0", "l123", "dde
 # infinite streams: only handed to callees that do not have to consume their argument
 # (the same list is Outcome!NonConsuming)
 INF_POOL = [("rep1", "repeat(1)", "sti"), ("iota0", "iota(0)", "sti")]
+# finite streams with more elements than a machine word counts (never iterated to the end by anyone):
+# handed to the non-consuming callees and to `len`, whose closed forms must not overflow
+HUGE_POOL = [("perm21", "permutations(1 to 21)", "sth"), ("subs64", "subsequences(1 to 64)", "sth"),
+             ("cart100", "([1,2,3] ^^ 100)", "sth")]
 NON_CONSUMING = ["take", "first", "second", "third", "tail", "lazy_map", "lazy_filter", "lazy_zip", "type", "is",
                  "id", "const", "not", "!!", "!?", "uncons", "uncons?", "zip", "then", "=>"]
 
